@@ -33,9 +33,20 @@ type Call struct {
 	Ign     int    `json:"ign,omitempty"`   // lag: 0 omitted, 1 true, 2 false; had_changed/changed_col: 1 true, 2 false
 	Start   *Cond  `json:"start,omitempty"` // acc_*: start condition
 	Reset   *Cond  `json:"reset,omitempty"` // acc_*: reset condition (needs Start)
+	Up      bool   `json:"up,omitempty"`    // function name written in upper case (names are case-insensitive)
 }
 
 func (c Call) SQL() string {
+	s := c.sqlLower()
+	if c.Up {
+		if i := strings.Index(s, "("); i > 0 {
+			s = strings.ToUpper(s[:i]) + s[i:]
+		}
+	}
+	return s
+}
+
+func (c Call) sqlLower() string {
 	switch c.Fn {
 	case "lag":
 		s := "lag(" + c.Col
@@ -241,6 +252,7 @@ var accFns = []string{"acc_sum", "acc_count", "acc_avg", "acc_min", "acc_max"}
 // genCall draws a call. numeric: the result must be a number (or NULL) so it can sit in arithmetic.
 func genCall(t *rapid.T, label string, fns []string, numeric bool) Call {
 	c := Call{Fn: rapid.SampledFrom(fns).Draw(t, label+"fn")}
+	c.Up = rapid.IntRange(0, 4).Draw(t, label+"up") == 0
 	if numeric {
 		c.Col = numCol(t, label+"col")
 	} else {
